@@ -80,6 +80,12 @@ CHECKS.update({
    ref="DESIGN.md §4 C15", note="Depth-0 games are excluded (DepthTooLow, C07). The random book index is replaced by the guarded choice seam so that all choices are enumerated."),
 })
 
+CHECKS.update({
+ "C14": dict(tech="exhaustive enumeration of inputs per state (all 4096 coordinate pairs, generated string sets, command-line lines) against the rules model",
+   text="For every tree seed and child position (grandchildren in thorough): all 4096 coordinate pairs, every legal label, every label of the other side / parent position, every near-miss image of a legal label under a fixed operator list, and junk are submitted to the real Game API; every label the engine prints is also typed through the real stdin reader (fd 0 replaced by a pipe) and executed; accepted inputs must yield exactly the model successor, clocks and history entry, rejected ones must leave the full snapshot and history untouched. Thorough: the real `chess pvp` binary is driven over stdin along scripted games and its printed boards are compared with the model.",
+   ref="DESIGN.md §4 C14", note="Strings that denote a legal move only under a lenient reading are not judged. The Game object is reused across inputs by taking accepted moves back; any mismatch after taking back discards the object."),
+})
+
 NOT_YET = {}
 
 def main():
